@@ -99,3 +99,79 @@ func park(sc *engine.Scenario, m *machine.Machine, res *engine.Result) {
 		res.Probe("env_debug_lcd")
 	}
 }
+
+// ---- activity of the units a property does not talk about -----------------------------------------
+// otherUnitTable: writes that start, stop or reprogram a unit. A property about one unit holds whatever
+// the guest does to the others meanwhile.
+var otherUnitTable = []struct {
+	a  uint16
+	vs []uint8
+}{
+	{0xff46, []uint8{0xc0, 0x40, 0x80, 0xd0, 0xfe, 0x00}}, // OAM DMA from work RAM, ROM, VRAM, the echo
+	{0xff40, []uint8{0x91, 0x11, 0x00, 0xe3}},             // LCD on/off
+	{0xff26, []uint8{0x80, 0x00}},                         // sound power
+	{0xff12, []uint8{0xf0, 0x08}}, {0xff14, []uint8{0x87, 0xc0}}, {0xff1a, []uint8{0x80}}, {0xff1e, []uint8{0x87}}, {0xff23, []uint8{0x80}},
+	{0xff07, []uint8{0x05, 0x04, 0x07, 0x00}}, {0xff04, []uint8{0x00}}, {0xff05, []uint8{0xfe, 0x00}}, {0xff06, []uint8{0xff, 0x00}},
+	{0xff00, []uint8{0x10, 0x20, 0x30, 0x00}}, {0xff01, []uint8{0x55}}, {0xff02, []uint8{0x81}},
+	{0xff41, []uint8{0x78, 0x00, 0x40}}, {0xff45, []uint8{0x00, 0x90}}, {0xff43, []uint8{0x07, 0x00}},
+}
+
+// addOtherUnitEvents adds 1..8 writes to units for which excl(address) is false, and key events, at
+// boundaries no event of the scenario uses (a guest performs one bus operation per cycle).
+func addOtherUnitEvents(r *engine.Rand, sc *engine.Scenario, excl func(a uint16) bool) {
+	if sc.Cycles < 8 {
+		return
+	}
+	used := map[uint64]bool{}
+	for _, e := range sc.Events {
+		used[e.At] = true
+	}
+	span := sc.Cycles
+	if span > 200000 {
+		span = 200000 // early enough to matter in long runs too
+	}
+	for i, n := 0, r.Range(1, 8); i < n; i++ {
+		at := 1 + uint64(r.Intn(int(span-2)))
+		if used[at] {
+			continue
+		}
+		used[at] = true
+		if r.Chance(1, 5) {
+			sc.Events = append(sc.Events, engine.Event{At: at, K: "key", A: uint16(r.Intn(8)), V: uint8(r.Intn(2)), S: "other"})
+			continue
+		}
+		e := otherUnitTable[r.Intn(len(otherUnitTable))]
+		if excl(e.a) {
+			continue
+		}
+		sc.Events = append(sc.Events, engine.Event{At: at, K: "bus_w", A: e.a, V: engine.Pick(r, e.vs), S: "other"})
+	}
+	sortEvents(sc.Events)
+	sc.SetP("env.other", 1)
+}
+
+// applyOther performs an event added by addOtherUnitEvents; false: not such an event.
+func applyOther(m *machine.Machine, ev *engine.Event, res *engine.Result) bool {
+	if ev.S != "other" {
+		return false
+	}
+	switch ev.K {
+	case "key":
+		m.Key(controllerButton(int(ev.A)), ev.V != 0)
+		res.Fault("other_key")
+	case "bus_w":
+		m.Write(ev.A, ev.V)
+		res.Fault("other_unit_write")
+		if ev.A == 0xff46 {
+			res.Probe("env_dma_started")
+		}
+	}
+	res.Probe("env_other_unit_activity")
+	return true
+}
+
+func exclTimer(a uint16) bool { return (a >= 0xff04 && a <= 0xff07) || a == 0xff0f }
+func exclVideo(a uint16) bool { return (a >= 0xff40 && a <= 0xff4b) || a == 0xff0f }
+func exclSound(a uint16) bool { return a >= 0xff10 && a <= 0xff3f }
+func exclDMA(a uint16) bool   { return a == 0xff46 || a == 0xff40 }
+func exclNone(a uint16) bool  { return false }
